@@ -34,7 +34,7 @@ def parseVert (w : String) : Option (VSem × Nat) :=
 def parseInput (w : String) : Option RawInput :=
   match w.splitOn "/" with
   | [o, s, r] => do
-    let ref ← if r == "v" then some Ref.verts else r.toNat?.map Ref.src
+    let ref ← if r == "v" then some Ref.verts else if r == "x" then some Ref.bad else r.toNat?.map Ref.src
     some ⟨← o.toNat?, ← parseSem s, ref⟩
   | _ => none
 
